@@ -225,6 +225,38 @@ Example concrete_nonvacuous :
   exists v, type_view fancy (1, 6)%N = Some v /\ length (fst v) = 3%nat.
 Proof. repeat split. eexists. split; reflexivity. Qed.
 
+(* Schema.merge, table by table: the merged schema answers a lookup in a symbol
+   space with self's entry if self has one IN THAT SPACE, else the other schema's. *)
+Theorem schema_merge_is_union : forall self other k q,
+  lookup_decl k q (merge_schema self other) =
+  match lookup_decl k q self with Some r => Some r | None => lookup_decl k q other end.
+Proof. exact schema_merge_is_union_l. Qed.
+Print Assumptions schema_merge_is_union.
+
+(* A name held in another table (an element Item next to an incoming type Item)
+   never keeps an entry out. *)
+Theorem merge_symbol_spaces_separate : forall self other k q,
+  lookup_decl k q self = None ->
+  lookup_decl k q (merge_schema self other) = lookup_decl k q other.
+Proof. exact merge_symbol_spaces_separate_l. Qed.
+Print Assumptions merge_symbol_spaces_separate.
+
+(* ... whereas testing the element table while taking over types loses the type. *)
+Theorem merge_wrong_table_refuted :
+  exists self other q,
+    lookup_decl KType q (merge_schema self other) <> None /\
+    lookup_decl KType q (merge_schema_wrong_table self other) = None.
+Proof. exact merge_wrong_table_refuted_l. Qed.
+Print Assumptions merge_wrong_table_refuted.
+
+(* SchemaCollection.merge over all namespaces (any number of blocks): the merged
+   tables are exactly the declarations, each in its own symbol space -- which is
+   what the flattened views above look names up in. *)
+Theorem merged_tables_are_the_declarations : forall C k q,
+  lookup_decl k q (merged_schema C) = lookup_decl k q (placed_all C).
+Proof. exact merged_tables_are_the_declarations_l. Qed.
+Print Assumptions merged_tables_are_the_declarations.
+
 (* ------------------------------------------------------------------ *)
 (* (4b) the model's view IS the denotation's, for every schema in guard *)
 (* ------------------------------------------------------------------ *)
